@@ -161,3 +161,10 @@ def tlaps_prove(module: str, timeout: int = 1800) -> dict:
     if not m:
         raise MachineryError(f"tlapm did not prove {module}:\n" + "\n".join(out.splitlines()[-25:]))
     return {"obligations": int(m.group(1)), "proved": True, "wall": round(time.time() - t0, 1)}
+
+
+def require_actions_taken(res: TlcResult, actions, what: str) -> None:
+    """Vacuity guard on a `-coverage 1` run: every named action must have been taken at least once."""
+    missing = [a for a in actions if res.coverage.get(a, (0, 0))[0] == 0]
+    if missing:
+        raise MachineryError(f"{what}: action(s) never taken in the bounded model: {missing} (coverage {res.coverage})")
